@@ -299,6 +299,23 @@ def FpStored : (d : Nat) → Tree Int ν (d + 1) → List Int → Nat → Prop
     | [] => o = fpOcc (d + 1) f
     | c :: p' => ∃ g, (c, g) ∈ (show List (Int × Tree Int ν (d + 1)) from f) ∧ FpStored d g p' o
 
+/-- Every fiber of the tree has pairwise distinct coordinates (`Fiber._checkUnique`): what the
+    linear / bisection lookups need to agree with `lookup`; weaker than `WF` (sortedness), so that
+    fibers created with `ordered=False` are inside the model. -/
+def FpUniq : (d : Nat) → Tree Int ν d → Prop
+  | 0, _ => True
+  | d + 1, f => (show List (Int × Tree Int ν d) from f).Pairwise (fun a b => a.1 ≠ b.1) ∧
+                ∀ e ∈ (show List (Int × Tree Int ν d) from f), FpUniq d e.2
+
+def fpPairwiseNeB : List Int → Bool
+  | [] => true
+  | c :: r => !r.contains c && fpPairwiseNeB r
+
+def fpUniqB : (d : Nat) → Tree Int ν d → Bool
+  | 0, _ => true
+  | d + 1, f => fpPairwiseNeB ((show List (Int × Tree Int ν d) from f).map (·.1)) &&
+                (show List (Int × Tree Int ν d) from f).all (fun e => fpUniqB d e.2)
+
 /-- sub-tree footprint recomputed from the enumeration of reachable fibers -/
 def fpSubTreeSpec [DecidableEq ν] (dflt : ν) (lv : Nat → FpLevel) (d : Nat) (f : Tree Int ν (d + 1)) : Nat :=
   ((fpReach dflt lv d f).map (fun r => fpFiber (lv r.2.1) r.2.2)).sum
